@@ -25,6 +25,7 @@ RULE = (
     "distinct = sha1 of the case, the class histogram counts (simulation type, result name)."
     ' size_coincidences: enumerated meshes padded with orphan nodes so that Nn*dof_n == Ne or Nn == Ne; reactions_transient: Calc_Reaction of an arbitrary state vs K u + C v + M a for every scheme (non-trivial = non-zero last term); energy_units: the energy identity at state magnitudes 1e-9 and 1e6, one case per simulation type.'
     ' Round 8: reactions_frame draws two connected members (straight or with a knee), static or dynamic: Calc_Reaction at the clamp vs K u (+ C v + M a) without the multiplier border and vs the tip force and its moment.'
+    " Round 9: hyperelastic cases may carry an active fibre stress (one value, or a field with passive elements); their stress reference comes from the model's functions."
 )
 ASSUMPTIONS = [
     "the state is the one the harness injected (nodal arrays drawn from numpy default_rng(seed)); dof numbering node*dof_n+comp",
